@@ -52,9 +52,10 @@ class CallGraph:
         # unique ids look like crate::path::{impl#n}::name; readable names like lance_io::object_store::ObjectStore::put
         return self.names.get(node) or node
 
-    def may_reach(self, leaves=MUTATING_LEAVES):
-        """Set of node ids from which a leaf is reachable."""
-        key = tuple(leaves)
+    def may_reach(self, leaves=MUTATING_LEAVES, exact=False):
+        """Set of node ids from which a leaf is reachable (leaf = callee whose readable name contains -- or, with
+        exact=True, ends with -- one of the given names)."""
+        key = (tuple(leaves), exact)
         if key in self._may:
             return self._may[key]
         pred = defaultdict(set)
@@ -62,7 +63,11 @@ class CallGraph:
             for b in bs:
                 pred[b].add(a)
         nodes = set(self.succ) | set(pred)
-        work = [n for n in nodes if any(l in (self.names.get(n) or n) for l in leaves)]
+
+        def is_leaf(n):
+            nm = self.names.get(n) or n
+            return any(nm.endswith(l) for l in leaves) if exact else any(l in nm for l in leaves)
+        work = [n for n in nodes if is_leaf(n)]
         seen = set(work)
         while work:
             n = work.pop()
@@ -73,14 +78,16 @@ class CallGraph:
         self._may[key] = seen
         return seen
 
-    def path_to_leaf(self, start, leaves=MUTATING_LEAVES, limit=12):
+    def path_to_leaf(self, start, leaves=MUTATING_LEAVES, limit=12, exact=False):
         """One witness path (list of readable names) from start to a leaf."""
         from collections import deque
         q = deque([(start, [start])])
         seen = {start}
         while q:
             n, p = q.popleft()
-            if any(l in (self.names.get(n) or n) for l in leaves) and n != start:
+            nm = self.names.get(n) or n
+            hit = any(nm.endswith(l) for l in leaves) if exact else any(l in nm for l in leaves)
+            if hit and n != start:
                 return [self.names.get(x) or x for x in p]
             if len(p) > limit:
                 continue
